@@ -16,7 +16,7 @@ fn ctx(prop: &str, tier: Tier) -> Ctx {
         .and_then(|s| s.parse().ok())
         .unwrap_or_else(|| std::thread::available_parallelism().map(|n| n.get()).unwrap_or(4).min(16));
     let scale = std::env::var("VERIF_SCALE").ok().and_then(|s| s.parse().ok()).unwrap_or(1.0);
-    Ctx { prop: prop.to_string(), tier, seed, root, threads, scale }
+    Ctx { prop: prop.to_string(), tier, seed, root, threads, scale, shrink_iters: 4000 }
 }
 
 fn main() {
